@@ -61,6 +61,9 @@ type ChainReq struct {
 	// (last access per key, the x/time/rate limiters' clocks) moves that far into the past and the periodic clean-up
 	// runs once, as its ticker would have during the silence. Reported times include the simulated span.
 	AgeMs int64 `json:"age_ms,omitempty"`
+	// Sweeps > 1: the clean-up runs Sweeps times during the simulated silence, after AgeMs*k/Sweeps for k = 1..Sweeps
+	// (the ticker fires several times while a client is silent); 0 or 1: one pass at the end of the silence.
+	Sweeps int `json:"sweeps,omitempty"`
 }
 
 type ChainObs struct {
@@ -99,10 +102,16 @@ func runChain(l Limits, reqs []ChainReq) (out []ChainObs, errs string) {
 			time.Sleep(time.Duration(q.SleepMs) * time.Millisecond)
 		}
 		if q.AgeMs > 0 {
-			d := time.Duration(q.AgeMs) * time.Millisecond
-			security.VerifAge(ad.RateLimit, d)
-			security.VerifSweep(ad.RateLimit)
-			aged += d
+			n := int64(q.Sweeps)
+			if n < 1 {
+				n = 1
+			}
+			for k := int64(1); k <= n; k++ {
+				d := time.Duration(q.AgeMs*k/n-q.AgeMs*(k-1)/n) * time.Millisecond
+				security.VerifAge(ad.RateLimit, d)
+				security.VerifSweep(ad.RateLimit)
+				aged += d
+			}
 		}
 		t0 := (time.Since(start) + aged).Nanoseconds()
 		res, err := svc.Chain.Validate(context.Background(), ports.SecurityRequest{ClientID: q.Client, IsHealthCheck: q.Health, BodySize: q.Body, Endpoint: "/x", Method: "POST"})
@@ -503,6 +512,157 @@ func runSize(sc *SizeScenario) (out []SizeObs, startErr string) {
 
 // ------------------------------------------------------------------ generation
 
+type chainCase struct {
+	L    Limits
+	Reqs []ChainReq
+}
+
+// genIdleCase: a history of one or two client addresses (optionally with health requests, which have a bucket and a
+// rate of their own) that spend their burst, stay silent, come back and spend what they are given, several times.
+// Boundary-biased in every number it draws:
+//   - (rate, burst): burst/rate (the minutes a drained bucket needs to refill) whole and non-whole, just below, at and
+//     above the 10-minute idle cut-off of the clean-up, the documented shapes (100/50, 1/20), large rates with small bursts;
+//   - the silence: at and around floor(burst/rate) minutes (+1 s), the true refill time burst/rate minutes (+-1 ms, +-1 s,
+//     +-3 s), the 10-minute cut-off (+-1 ms, +-2 s), whole minutes above, half, twice and ten times the refill time, the
+//     refill time read in seconds, and uniform values;
+//   - the number of clean-up passes that fall into the silence (1, 2, 3, 5, 9), the last one at its very end;
+//   - optionally a max_body_size at a power of two (4 KiB .. 4 GiB) with declared lengths at limit-1, limit, limit+1.
+// Judged like every "chain" case: decisions compared with the ideal bucket, and every bucket key against burst + rate x t.
+//
+// The only thing the generator avoids is a silence after which a bucket holds a whole number of tokens minus less than
+// what 200 ms refill (the decision would then depend on the microseconds the calls themselves take, which the model is
+// only told as the interval [t0, t1]): it keeps an exact integer copy of every bucket (1 token = 60000 rate x ms units)
+// and moves such a silence on by a second or two.
+func genIdleCase(r *vlib.Rng) chainCase {
+	var R, B int
+	switch r.Intn(10) {
+	case 0, 1, 2, 3: // burst = rate x q + rem: ratio q + rem/rate minutes around and above the cut-off, mostly not whole
+		R = vlib.Pick(r, []int{1, 2, 3, 4, 5, 6, 7, 8, 9, 11, 12, 13})
+		q := vlib.Pick(r, []int{9, 10, 10, 10, 11, 11, 12, 15, 20, 25})
+		for R*q+R-1 > 160 && q > 9 {
+			q--
+		}
+		rem := r.Intn(R)
+		if R > 1 && rem == 0 && r.Chance(2, 3) {
+			rem = 1 + r.Intn(R-1)
+		}
+		B = R*q + rem
+	case 4, 5:
+		p := vlib.Pick(r, [][2]int{{6, 65}, {4, 50}, {2, 25}, {1, 20}, {1, 12}, {100, 50}, {60, 10}, {3, 40}, {7, 75}, {9, 100}, {12, 125}, {8, 81}, {5, 64}, {3, 32}, {6, 61}, {6, 59}, {2, 21}, {12, 128}})
+		R, B = p[0], p[1]
+	case 6, 7:
+		R, B = 1+r.Intn(15), 1+r.Intn(160)
+	case 8:
+		R, B = vlib.Pick(r, []int{30, 60, 100, 120, 600}), vlib.Pick(r, []int{1, 5, 10, 50, 64, 128})
+	default:
+		R, B = vlib.Pick(r, []int{1, 2, 3}), vlib.Pick(r, []int{1, 2, 9, 10, 11, 19, 21, 29, 31})
+	}
+	l := Limits{PerIP: R, Burst: B}
+	if r.Chance(1, 3) {
+		l.Health = vlib.Pick(r, []int{1, 2, 3, 7, R})
+	}
+	if r.Chance(1, 4) {
+		l.MaxBody = vlib.Pick(r, []int64{4096, 8192, 65536, 131072, 1 << 20, 16 << 20, 1 << 31, 1 << 32})
+	}
+	type key struct {
+		client string
+		health bool
+		rate   int64
+		tokens int64 // x 60000
+	}
+	var keys []*key
+	ncl := 1
+	if B <= 80 && r.Chance(1, 3) {
+		ncl = 2
+	}
+	for c := 0; c < ncl; c++ {
+		id := fmt.Sprintf("10.7.0.%d", c+1)
+		keys = append(keys, &key{id, false, int64(R), int64(B) * 60000})
+		if l.Health > 0 && B <= 80 {
+			keys = append(keys, &key{id, true, int64(l.Health), int64(B) * 60000})
+		}
+	}
+	capT := int64(B) * 60000
+	var q []ChainReq
+	body := func() int64 {
+		if l.MaxBody > 0 && r.Chance(1, 8) {
+			return l.MaxBody + vlib.Pick(r, []int64{-1, 0, 1, 1, l.MaxBody})
+		}
+		return 10
+	}
+	// asks of every key until it has been refused once or twice; the first request of the segment carries the silence
+	segment := func(age int64, sweeps int) {
+		first := true
+		for _, k := range keys {
+			n := int(k.tokens/60000) + 1 + r.Intn(2)
+			for i := 0; i < n; i++ {
+				cr := ChainReq{Client: k.client, Health: k.health, Body: body()}
+				if first {
+					cr.AgeMs, cr.Sweeps, first = age, sweeps, false
+				}
+				q = append(q, cr)
+				if k.tokens >= 60000 {
+					k.tokens -= 60000
+				}
+			}
+		}
+	}
+	segment(0, 0)
+	nseg := 1 + r.Intn(4)
+	if lim := 500/(B+2) - 1; nseg > lim {
+		nseg = lim
+	}
+	if nseg < 1 {
+		nseg = 1
+	}
+	for s := 0; s < nseg; s++ {
+		f := keys[r.Intn(len(keys))] // the silence is drawn around this bucket's numbers
+		refill := int64(B) * 60000 / f.rate
+		fl := int64(B) / f.rate * 60000
+		var idle int64
+		switch r.Intn(8) {
+		case 0, 1, 2: // between the whole minutes below the refill time and the refill time
+			idle = vlib.Pick(r, []int64{fl + 1000, fl + 1001, fl + 3000, fl + 5000, (fl + 1000 + refill) / 2, refill - 3000, refill - 1000, fl + 1000 + int64(r.Intn(int(refill-fl)+1))})
+		case 3:
+			idle = refill + vlib.Pick(r, []int64{-1, 0, 1, 999, 1000, 1001, 3000, 60000})
+		case 4:
+			idle = 600000 + vlib.Pick(r, []int64{-2000, -1, 0, 1, 1000, 2000, 30000})
+		case 5:
+			idle = vlib.Pick(r, []int64{fl - 2000, fl, fl + 60000, fl + 61000, refill / 2, 2 * refill, 10 * refill, 100 * refill, refill/60 + 1000, 60 * refill})
+		case 6:
+			idle = 600000 + int64(r.Intn(int(refill)+60000))
+		default:
+			idle = 1000 + int64(r.Intn(int(2*refill)+300000))
+		}
+		if idle < 1 {
+			idle = 1
+		}
+		ok := false
+		for try := 0; try < 10 && !ok; try++ {
+			ok = true
+			for _, k := range keys {
+				t := k.tokens + k.rate*idle
+				if t < capT && t%60000+k.rate*200 >= 60000 {
+					ok = false
+				}
+			}
+			if !ok {
+				idle += 700 + int64(r.Intn(1500))
+			}
+		}
+		if !ok {
+			break
+		}
+		for _, k := range keys {
+			if k.tokens += k.rate * idle; k.tokens > capT {
+				k.tokens = capT
+			}
+		}
+		segment(idle, vlib.Pick(r, []int{0, 0, 1, 2, 3, 5, 9}))
+	}
+	return chainCase{l, q}
+}
+
 func genPlan(r *vlib.Rng, conns, n int, routes []string) []PlanItem {
 	var p []PlanItem
 	for i := 0; i < n; i++ {
@@ -516,10 +676,6 @@ func main() {
 	r := vlib.NewRng(vlib.Seed())
 	c := vlib.OpenCases("cases.jsonl")
 
-	type chainCase struct {
-		L    Limits
-		Reqs []ChainReq
-	}
 	var chains []chainCase
 	var rates []*RateScenario
 	var sizes []*SizeScenario
@@ -560,8 +716,8 @@ func main() {
 		// the silence is far too short to refill a token, so it must still be refused
 		for _, cl := range []int{50, 100} {
 			id := fmt.Sprintf("9.9.9.9#c%d", cl)
-			q := []ChainReq{{id, false, 10, 0, 0}, {id, false, 10, 0, 0}, {id, false, 10, 0, 0}, {id, false, 10, 0, 0},
-				{id, false, 10, 6 * cl, 0}, {id, false, 10, 0, 0}, {id, false, 10, 0, 0}, {id, false, 10, 3 * cl, 0}, {id, false, 10, 0, 0}}
+			q := []ChainReq{{id, false, 10, 0, 0, 0}, {id, false, 10, 0, 0, 0}, {id, false, 10, 0, 0, 0}, {id, false, 10, 0, 0, 0},
+				{id, false, 10, 6 * cl, 0, 0}, {id, false, 10, 0, 0, 0}, {id, false, 10, 0, 0, 0}, {id, false, 10, 3 * cl, 0, 0}, {id, false, 10, 0, 0, 0}}
 			chains = append(chains, chainCase{Limits{0, 6, 0, 3, 0}, q})
 		}
 		// long silences, simulated (AgeMs): a client drains its burst, is silent for a while, comes back. The silence
@@ -601,7 +757,7 @@ func main() {
 				if i == 22 {
 					sl = 65000
 				}
-				q = append(q, ChainReq{id, false, 10, sl, 0})
+				q = append(q, ChainReq{id, false, 10, sl, 0, 0})
 			}
 			chains = append(chains, chainCase{Limits{0, 6, 0, 20, 0}, q})
 		}
@@ -613,10 +769,10 @@ func main() {
 			chainCase{Limits{0, 2, 1, 1, 0}, mkReqs(9, []string{"a"}, 3, 10)},                                                                                                                // health split
 			chainCase{Limits{0, 2, 0, 1, 0}, mkReqs(6, []string{"a"}, 2, 10)},                                                                                                                // health limit 0: health requests bypass
 			chainCase{Limits{0, 3, 3, 0, 0}, mkReqs(4, []string{"a"}, 0, 10)},                                                                                                                // burst 0: nothing admitted
-			chainCase{Limits{0, 100, 0, 3, 1000}, []ChainReq{{"a", false, 999, 0, 0}, {"a", false, 1000, 0, 0}, {"a", false, 1001, 0, 0}, {"a", false, -1, 0, 0}, {"a", false, 5000, 0, 0}}}, // size on declared length only
-			chainCase{Limits{0, 1, 0, 1, 1000}, []ChainReq{{"a", false, 5000, 0, 0}, {"a", false, 10, 0, 0}}},                                                                                // an oversize request still spends the token
-			chainCase{Limits{0, 120, 0, 1, 0}, []ChainReq{{"a", false, 1, 0, 0}, {"a", false, 1, 100, 0}, {"a", false, 1, 700, 0}, {"a", false, 1, 50, 0}}},                                  // refill: 2 tokens/s
-			chainCase{Limits{0, 60, 0, 2, 0}, []ChainReq{{"a", false, 1, 0, 0}, {"a", false, 1, 0, 0}, {"a", false, 1, 0, 0}, {"a", false, 1, 1300, 0}, {"a", false, 1, 0, 0}}},              // refill: 1 token/s
+			chainCase{Limits{0, 100, 0, 3, 1000}, []ChainReq{{"a", false, 999, 0, 0, 0}, {"a", false, 1000, 0, 0, 0}, {"a", false, 1001, 0, 0, 0}, {"a", false, -1, 0, 0, 0}, {"a", false, 5000, 0, 0, 0}}}, // size on declared length only
+			chainCase{Limits{0, 1, 0, 1, 1000}, []ChainReq{{"a", false, 5000, 0, 0, 0}, {"a", false, 10, 0, 0, 0}}},                                                                                // an oversize request still spends the token
+			chainCase{Limits{0, 120, 0, 1, 0}, []ChainReq{{"a", false, 1, 0, 0, 0}, {"a", false, 1, 100, 0, 0}, {"a", false, 1, 700, 0, 0}, {"a", false, 1, 50, 0, 0}}},                                  // refill: 2 tokens/s
+			chainCase{Limits{0, 60, 0, 2, 0}, []ChainReq{{"a", false, 1, 0, 0, 0}, {"a", false, 1, 0, 0, 0}, {"a", false, 1, 0, 0, 0}, {"a", false, 1, 1300, 0, 0}, {"a", false, 1, 0, 0, 0}}},              // refill: 1 token/s
 		)
 		nchain := 150
 		if tier == "thorough" {
@@ -665,6 +821,16 @@ func main() {
 				}
 			}
 			chains = append(chains, chainCase{l, q})
+		}
+
+		// silences at and around the numbers the clean-up of idle limiters computes with (own PRNG stream)
+		rb := vlib.NewRng(vlib.Seed() ^ 0xB0DE17)
+		nidle := 90
+		if tier == "thorough" {
+			nidle = 900
+		}
+		for i := 0; i < nidle; i++ {
+			chains = append(chains, genIdleCase(rb))
 		}
 
 		// ---- rate: the three design-time witnesses first
@@ -722,9 +888,20 @@ func main() {
 		}
 
 		// ---- size
-		around := func(m int) []int { return []int{m - 1, m, m + 1, 5 * m} }
-		for _, m := range []int{1000, 300, 4096} {
-			sc := &SizeScenario{Engine: map[int]string{1000: "sherpa", 300: "olla", 4096: "sherpa"}[m], Lim: Limits{0, 0, 0, 0, int64(m)}, AnthropicMax: int64(2 * m)}
+		// net/http reads at most 256 KiB of an unread request body before it closes the connection; a client that is still
+		// writing a longer body may lose the answer to the reset, so refused bodies stay below that
+		around := func(m int) []int {
+			if 5*m > 200000 {
+				return []int{m - 1, m, m + 1, m + 8193}
+			}
+			return []int{m - 1, m, m + 1, 5 * m}
+		}
+		szLimits := []int{1000, 300, 4096, 8192} // 8192 and the powers of two above: buffer-size constants of the proxy engines
+		if tier == "thorough" {
+			szLimits = append(szLimits, 16384, 65536)
+		}
+		for _, m := range szLimits {
+			sc := &SizeScenario{Engine: map[int]string{1000: "sherpa", 300: "olla", 4096: "sherpa", 8192: "olla", 16384: "sherpa", 65536: "olla"}[m], Lim: Limits{0, 0, 0, 0, int64(m)}, AnthropicMax: int64(2 * m)}
 			for _, n := range around(m) {
 				for _, ch := range []bool{false, true} {
 					sc.Items = append(sc.Items, SizeItem{Route: "proxy", Size: n, Chunked: ch})
